@@ -393,6 +393,10 @@ func (c *fnCtx) composite(cl *ast.CompositeLit, next int) int {
 		}
 		next = c.node("flag", f, op, cv, next, 0, at)
 	}
+	if tn == "vmContext" {
+		// contract code can only run once a context exists (paths on which the constructor failed end before)
+		next = c.node("ctx", "", "", 0, next, 0, cl)
+	}
 	return next
 }
 
